@@ -17,6 +17,7 @@ RULE = (
     "with a multi-sample plate (must be refused). Non-trivial = history completes >=1 sample and opens a second. distinct = distinct case JSON."
     ' Also: late-campaign screens (dozens of unobserved plates spread over hundreds of ids) with score entries delivered twice; a generator whose draws repeat in half the cases.'
     ' Half the cases hand select_next_plate stale ids as well (-1, ids beyond the screen).'
+    ' Stale-id lists also repeat a selection of the batch.'
 )
 ASSUMPTIONS = [
     "histories start from an empty batch and only follow selections the policy itself allowed (the quantifier of the property)",
@@ -161,7 +162,9 @@ def check_case(case):
         # was allowed (and, after a re-plan, ids the current screen no longer has): ids that name no plate take part in nothing
         if not case.get("stale_ids"):
             return b
-        extra_ = [[-1], [-1, -1], [10**6], [-1, len(plates) + 3]][(step_ + len(b)) % 4]
+        extra_ = [[-1], [-1, -1], [10**6], [-1, len(plates) + 3]][(step_ + len(case["picks"])) % 4]
+        if b and (step_ + len(case["picks"])) % 3 != 1:
+            extra_ = extra_ + [b[-1] if step_ % 4 < 2 else b[0]]  # ... or a selection listed twice: still one plate of the batch
         return (list(b) + extra_) if step_ % 2 else (extra_ + list(b))
 
     batch = []
